@@ -23,6 +23,34 @@ def precanon (nv : Nat) (s : Slots) : FastOps :=
   ((canon nv none s).setPEnds (staleP (canonEnds s)))
     |> fun c => { c with varEnds := (List.range nv).map (fun v => staleV (canonVarEnd s v)) }
 
+namespace FastOps
+theorem nfv_installVarWrite (p : Nat) (c : FastOps) (lt : Option PRel) (v relv r : Nat) :
+    (installVarWrite p c lt v relv).nfv r = (c.nfv r).map (fun l =>
+      match lt with
+      | some pr => if pr.p = r then l.set pr.relv (some ⟨p, relv⟩) else l
+      | none => l) := by
+  unfold installVarWrite
+  cases lt <;> simp <;> cases c.nfv r <;> rfl
+
+theorem pfv_installVarWrite (p : Nat) (c : FastOps) (lt : Option PRel) (v relv r : Nat) :
+    (installVarWrite p c lt v relv).pfv r = c.pfv r := by
+  unfold installVarWrite
+  cases lt <;> simp
+
+theorem varEnds_installVarWrite (p : Nat) (c : FastOps) (lt : Option PRel) (v relv : Nat) :
+    (installVarWrite p c lt v relv).varEnds =
+      match lt with
+      | some _ => c.varEnds
+      | none => c.varEnds.set v (some (⟨p, relv⟩, ⟨p, relv⟩)) := by
+  unfold installVarWrite
+  cases lt <;> simp
+
+theorem installVarWrite_g (p : Nat) (c : FastOps) (lt : Option PRel) (v relv : Nat) :
+    (installVarWrite p c lt v relv).g = c.g := by
+  unfold installVarWrite
+  cases lt <;> simp
+end FastOps
+
 section Step
 variable (nv : Nat) (s : Slots) (p : Nat) (op : Op)
 
@@ -77,15 +105,7 @@ theorem installVar_step (nv : Nat) (s : Slots) (p : Nat) (op : Op)
   constructor
   · -- next_for_vars
     intro q hq
-    have hnfv : ∀ c' : FastOps, (match prevRel s v p with
-        | some pr => c'.setNextFor pr.p pr.relv (some ⟨p, relv⟩)
-        | none => c'.setVarEnd v (some (⟨p, relv⟩, ⟨p, relv⟩))).nfv q
-        = (c'.nfv q).map (fun l => match prevRel s v p with
-            | some pr => if pr.p = q then l.set pr.relv (some ⟨p, relv⟩) else l
-            | none => l) := by
-      intro c'
-      cases prevRel s v p <;> simp <;> cases c'.nfv q <;> rfl
-    rw [hnfv, h.hn q hq]
+    rw [FastOps.nfv_installVarWrite, h.hn q hq]
     cases hsq : slotAt s q with
     | none => rfl
     | some oq =>
@@ -137,34 +157,11 @@ theorem installVar_step (nv : Nat) (s : Slots) (p : Nat) (op : Op)
           have : ¬ (some q' = some q) := by simpa using hqq
           simp [this]
   · intro q hq
-    have : ∀ c' : FastOps, (match prevRel s v p with
-        | some pr => c'.setNextFor pr.p pr.relv (some ⟨p, relv⟩)
-        | none => c'.setVarEnd v (some (⟨p, relv⟩, ⟨p, relv⟩))).pfv q = c'.pfv q := by
-      intro c'; cases prevRel s v p <;> simp
-    rw [this, h.hp q hq]
-  · have : ∀ c' : FastOps, (match prevRel s v p with
-        | some pr => c'.setNextFor pr.p pr.relv (some ⟨p, relv⟩)
-        | none => c'.setVarEnd v (some (⟨p, relv⟩, ⟨p, relv⟩))).nfv p
-        = (c'.nfv p).map (fun l => match prevRel s v p with
-            | some pr => if pr.p = p then l.set pr.relv (some ⟨p, relv⟩) else l
-            | none => l) := by
-      intro c'
-      cases prevRel s v p <;> simp <;> cases c'.nfv p <;> rfl
-    rw [this, h.hnp]; rfl
-  · have : ∀ c' : FastOps, (match prevRel s v p with
-        | some pr => c'.setNextFor pr.p pr.relv (some ⟨p, relv⟩)
-        | none => c'.setVarEnd v (some (⟨p, relv⟩, ⟨p, relv⟩))).pfv p = c'.pfv p := by
-      intro c'; cases prevRel s v p <;> simp
-    rw [this, h.hpp]
+    rw [FastOps.pfv_installVarWrite, h.hp q hq]
+  · rw [FastOps.nfv_installVarWrite, h.hnp]; rfl
+  · rw [FastOps.pfv_installVarWrite, h.hpp]
   · -- var_ends
-    have hve : ∀ c' : FastOps, (match prevRel s v p with
-        | some pr => c'.setNextFor pr.p pr.relv (some ⟨p, relv⟩)
-        | none => c'.setVarEnd v (some (⟨p, relv⟩, ⟨p, relv⟩))).varEnds
-        = match prevRel s v p with
-          | some _ => c'.varEnds
-          | none => c'.varEnds.set v (some (⟨p, relv⟩, ⟨p, relv⟩)) := by
-      intro c'; cases prevRel s v p <;> simp
-    rw [hve, h.hv]
+    rw [FastOps.varEnds_installVarWrite, h.hv]
     apply List.ext_getElem?
     intro w
     unfold prevRel
